@@ -85,6 +85,18 @@ def _plugs(ctx):
 
 def generated_obligations(ctx, proof, broken):
     global T2DIR
+    if ctx.thorough and not os.environ.get("C11_ONLY"):
+        # independent re-check by kernel computation of the planarity statement behind yinyang's auxiliary constraints
+        # (Puzzle/YinyangBounded.v: all boards with h*w <= 12, and h, w >= 2 with h*w <= 16; ~2 min; not in the closure
+        # of Props/C11.v, whose C11_yinyang_aux_implied is the unbounded theorem)
+        proof["generated_obligations"] = proof.get("generated_obligations", 0) + 1
+        with vlib.Lock():
+            rc, out = vlib.coq_make(["theories/Puzzle/YinyangBounded.vo"], timeout=1500)
+        if rc != 0:
+            broken.append(("proof:yinyang_aux_implied_bounded", out[-2000:]))
+        else:
+            proof["generated_discharged"] = proof.get("generated_discharged", 0) + 1
+            ctx.note("thorough: yinyang_aux_implied_bounded_12 / _16 rebuilt / up to date")
     if ctx.thorough and not T2DIR.endswith("_thorough"):
         T2DIR = T2DIR + "_thorough"      # the two tiers keep separate compiled caches
     L = _lib()
